@@ -53,7 +53,11 @@ func C17(r *eng.Run) {
 		case 6:
 			name = c17MaskHelpers(r)
 		default:
-			name = c17WriteSide(r)
+			if r.T.Chance(sim.LOp, 1, 3) {
+				name = c17ServerWrite(r, &retained)
+			} else {
+				name = c17WriteSide(r)
+			}
 		}
 		ops = append(ops, name)
 		verify(name)
@@ -275,6 +279,23 @@ func c17ReadMessage(r *eng.Run, retained *[]func() string) string {
 			}
 			r.Probe("control_message_answered_then_inspected")
 		}
+	}
+	if len(all) == len(model) && r.T.Chance(sim.LAct, 1, 3) {
+		// The application appends to the payloads it was handed (or otherwise
+		// uses their spare capacity): each is its own, so that must not show
+		// in any other.
+		for i := range all {
+			pl := all[i].Payload
+			for k := len(pl); k < cap(pl); k++ {
+				pl[:cap(pl)][k] = 0x5a
+			}
+		}
+		for i := range all {
+			if !bytes.Equal(all[i].Payload, model[i].Data) {
+				r.Failf("result_aliases_internal_memory", "ReadMessage: payload %d (%d bytes) changed when the application used the spare capacity of the other payloads of the same call%s", i, len(model[i].Data), firstDiff(all[i].Payload, model[i].Data))
+			}
+		}
+		r.Probe("spare_capacity_of_returned_payloads_used")
 	}
 	for i := range all {
 		i := i
@@ -514,6 +535,50 @@ func c17OwnBuffer(r *eng.Run, retained *[]func() string) string {
 	})
 	r.Probe("writer_grew_away_from_application_buffer")
 	return fmt.Sprintf("NewWriterBuffer(own %d)+grow", class)
+}
+
+// c17ServerWrite: server-side writes send the caller's slice as it is. The
+// slice - its capacity is a pool class as often as not - stays the caller's:
+// intact after the call and after whatever the library does later.
+func c17ServerWrite(r *eng.Run, retained *[]func() string) string {
+	class := []int{128, 256, 1024, 4096, 65536}[r.T.Int(sim.LSize, 5)]
+	n := class
+	if r.T.Bool(sim.LLen) {
+		n = 1 + r.T.Int(sim.LLen, class)
+	}
+	own := patBytes(r.T.U32(sim.LPaySeed), 0, class)
+	keep := append([]byte(nil), own...)
+	data := own[:n]
+	dst := NewPipe(r, nil)
+	which := r.T.Int(sim.LOp, 5)
+	name := []string{"WriteServerMessage", "WriteServerBinary", "WriteMessage(server)", "Writer(server).WriteThrough", "WriteFrame"}[which]
+	var err error
+	switch which {
+	case 0:
+		err = wsutil.WriteServerMessage(dst, ws.OpBinary, data)
+	case 1:
+		err = wsutil.WriteServerBinary(dst, data)
+	case 2:
+		err = wsutil.WriteMessage(dst, ws.StateServerSide, ws.OpText, data)
+	case 3:
+		_, err = wsutil.NewWriter(dst, ws.StateServerSide, ws.OpBinary).WriteThrough(data)
+	default:
+		err = ws.WriteFrame(dst, ws.NewBinaryFrame(data))
+	}
+	if err != nil {
+		r.Failf("unexpected_error", "%s(%d bytes): %v", name, n, err)
+	}
+	if !bytes.Equal(own, keep) {
+		r.Failf("caller_slice_modified", "%s(%d bytes of a %d byte buffer) left the caller's buffer modified%s", name, n, class, firstDiff(own, keep))
+	}
+	*retained = append(*retained, func() string {
+		if !bytes.Equal(own, keep) {
+			return fmt.Sprintf("the %d byte buffer whose first %d bytes were sent with %s changed%s", class, n, name, firstDiff(own, keep))
+		}
+		return ""
+	})
+	r.Probe("server_write_of_pool_class_buffer")
+	return fmt.Sprintf("%s(%d/%d)", name, n, class)
 }
 
 func c17WriteSide(r *eng.Run) string {
